@@ -85,6 +85,10 @@ Definition attempt_of_kind (kind : N) : option attempt :=
   | 8 => Some (AtFail false true)     (* connection refused (not observable by the fake server) *)
   | 9 => Some (AtFail true false)     (* protocol violation by the server while a stream request is in flight *)
   | 10 => Some (AtFail false true)    (* handshake timeout within the TLS handshake *)
+  | 11 => Some (AtFail true true)     (* keepalive timeout: the server went silent *)
+  | 12 => Some (AtFail false true)    (* connection reset during the handshake *)
+  | 13 => Some (AtFail false false)   (* TLS error *)
+  | 14 => Some (AtFail false false)   (* wrong Sec-WebSocket-Accept *)
   | _ => None                          (* healthy *)
   end.
 
